@@ -136,6 +136,10 @@ class Check:
     def discharge(self, timeout_ms=None, parallel=True):
         pending = [o for o in self.obligs if o.status is None]
         smt.discharge(pending, timeout_ms or self.solver_timeout_ms, parallel=parallel)
+        if os.environ.get("SYMX_VERBOSE"):
+            for ob in pending:
+                if ob.secs > 3:
+                    print("  slow: %6.1fs %-8s %-10s %s" % (ob.secs, ob.status, ob.solver, ob.label))
         for ob in pending:
             if ob.canary:
                 if ob.status != "sat":
@@ -166,7 +170,14 @@ class Check:
                     if f is not None:
                         self.candidate(f)
                         continue
-                self.inconc("obligation %s: %s from all solvers" % (ob.label, ob.status))
+                try:
+                    d = os.path.join(EVID, "obligations", self.pid)
+                    os.makedirs(d, exist_ok=True)
+                    with open(os.path.join(d, "unknown_%d.smt2" % len(self.inconclusive)), "w") as fh:
+                        fh.write("; %s\n" % ob.label + ob.smt2())
+                except Exception:
+                    pass
+                self.inconc("obligation %s: %s from all solvers (%.1fs) %s" % (ob.label, ob.status, ob.secs, (ob.model or {}).get("error", "") if isinstance(ob.model, dict) else ""))
 
     def _known(self, key):
         for ent in self.known_open:
